@@ -565,6 +565,14 @@ pub fn c18_cases() -> Vec<(String, Vec<String>)> {
         ("skip", "skip(\" +\", some::path::skip, priority = 3)"),
         ("skip", "skip(\" +\", |lex| { let _ = lex; logos::Skip })"),
         ("skip", "skip(\" +\", sk)"),
+        // items whose ACCEPTANCE depends on another item of the list (the lexer's mode): byte-string and
+        // Unicode-off skips / subpatterns that are only legal together with utf8 = false, wherever that is written
+        ("skip", "skip b\"[\\xF0-\\xFF]+\""),
+        ("skip", "skip(b\"\\xff+\", priority = 3)"),
+        ("skip", "skip \"(?-u:[\\x80-\\xBF])\""),
+        ("skip", "skip b\" +\""),
+        ("subc", "subpattern c = b\"[\\x80-\\xff]\""),
+        ("subd", "subpattern d = \"(?-u:\\xfe)\""),
         ("extras", "extras = Ex"),
         ("error", "error = Er"),
         ("error", "error(Er, callback = ecb)"),
